@@ -3,7 +3,7 @@
 From Coq Require Import String.
 From stdpp Require Import gmap.
 From Galaxy.Base Require Import Strs.
-From Galaxy.Model Require Import Nets Pool Ipam Plugin.
+From Galaxy.Model Require Import Nets Pool Ipam Plugin PluginPool.
 From Galaxy.Model Require Keys.
 From Galaxy.Corr Require Import CorrBase Ipamc.
 Local Open Scope N_scope.
@@ -127,3 +127,28 @@ Definition mon_freed_unassigned (prev cur : wdump) : bool :=
                      let '(k, _, _, _, _) := snd kv in
                      match alloc_of cur x with Some (k', _, _, _, _) => str_eqb k k' | None => false end ||
                      negb (existsb (fun c => fst c =? x) (wd_cloud cur))) (od_alloc (wd_ipam prev)).
+
+(** * histories extended with pool API requests (Model/PluginPool.v) *)
+Definition pout2_eqb (a b : pout2) : bool :=
+  match a, b with
+  | R1 x, R1 y => pout_eqb x y
+  | RPool PoolOk, RPool PoolOk | RPool PoolNotEnough, RPool PoolNotEnough | RPool PoolErr, RPool PoolErr => true
+  | _, _ => false
+  end.
+Definition pstep2_obs := (pop2 * pout2 * wdump)%type.
+Fixpoint preplay2 (w : world) (i : N) (h : list pstep2_obs) : option N :=
+  match h with
+  | [] => None
+  | (o, r, d) :: rest =>
+      let '(w', r') := pstep2 w o in
+      if pout2_eqb r' r && wdump_ok w' d then preplay2 w' (i + 1) rest else Some i
+  end.
+Definition chk_phist2 (provider : bool) (nodes : list (str * N)) (conf : list json) (h : list pstep2_obs) : bool :=
+  match preplay2 (world_init provider nodes conf) 0 h with None => true | Some _ => false end.
+
+(** C07: the number of IPs held under a pool's prefix *)
+Definition dump_pool_count (d : wdump) (name : str) : nat :=
+  List.length (List.filter (fun kv => let '(k, _, _, _, _) := snd kv in has_prefix (pool_key name) k) (od_alloc (wd_ipam d))).
+(** a step never brings the count above the size in force (size seen by galaxy-ipam's Pool lister at that step) *)
+Definition mon_pool_cap (name : str) (size : N) (prev cur : wdump) : bool :=
+  (N.of_nat (dump_pool_count cur name) <=? N.max (N.of_nat (dump_pool_count prev name)) size).
